@@ -161,6 +161,7 @@ def run(ck, ctx):
         ck.ob(rule, "overlap:empty-skipped", empty_skip, "empty blocks are skipped before the overlap check", "src/asm.rs:%s" % on.line)
 
     ck.ob(rule, "pass2-after-pass1", discharge.pass2_after_pass1(F), "ObjectFile::new is only called after SymbolTable::new returned Ok (both assemble fns)", "src/asm.rs")
+    ck.include("C23", ctx, "C02.3", {"C23.1", "C23.2"}, "a defined label is found exactly when every declaration and every use fold case the same way")
     ck.assume("`src` given to assemble_debug is the text the AST was parsed from")
     ck.assume("the program was produced by the parser (string literals < 65535 bytes, labels built by Label::new)")
     ck.assume("'exactly when' as a whole (completeness of the conjunction of conditions) is not decided; each guard is")
